@@ -128,10 +128,50 @@ def case_regimen(B, cfg):
            m.dosing_regimen() is p and m._simulator._protocol is p)
 
 
+TWO_COMP = '''<?xml version="1.0" encoding="UTF-8"?>
+<sbml xmlns="http://www.sbml.org/sbml/level3/version2/core" level="3" version="2">
+  <model id="two_compartments_one_called_dose">
+    <listOfCompartments>
+      <compartment id="dose" name="dose" size="1"/>
+      <compartment id="central" name="central" size="1"/>
+    </listOfCompartments>
+    <listOfSpecies>
+      <species id="drug" name="drug" compartment="dose" initialAmount="0" hasSubstanceUnits="false"/>
+      <species id="drug_c" name="drug_c" compartment="central" initialAmount="0" hasSubstanceUnits="false"/>
+    </listOfSpecies>
+    <listOfParameters>
+      <parameter id="uptake_rate" value="1" constant="true"/>
+      <parameter id="elimination_rate" value="1" constant="true"/>
+    </listOfParameters>
+    <listOfReactions>
+      <reaction id="uptake" reversible="false" fast="false">
+        <listOfReactants><speciesReference species="drug"/></listOfReactants>
+        <listOfProducts><speciesReference species="drug_c"/></listOfProducts>
+        <kineticLaw><math xmlns="http://www.w3.org/1998/Math/MathML">
+          <apply><times/><ci> dose </ci><ci> uptake_rate </ci><ci> drug </ci></apply>
+        </math></kineticLaw>
+      </reaction>
+      <reaction id="elimination" reversible="false" fast="false">
+        <listOfReactants><speciesReference species="drug_c"/></listOfReactants>
+        <kineticLaw><math xmlns="http://www.w3.org/1998/Math/MathML">
+          <apply><times/><ci> central </ci><ci> elimination_rate </ci><ci> drug_c </ci></apply>
+        </math></kineticLaw>
+      </reaction>
+    </listOfReactions>
+  </model>
+</sbml>
+'''
+
+
 def case_surgery(B, cfg):
     """(b) model surgery on the expression trees"""
     import myokit
-    if cfg['model'] == 'generated':
+    if cfg['model'] == 'two_comp_dose':
+        # a model that already has a compartment called 'dose' (the name
+        # chi gives to its absorption depot)
+        m = chi.PKPDModel(c09._write(TWO_COMP, 'two_comp_dose.xml'))
+        comp = cfg['comp']
+    elif cfg['model'] == 'generated':
         path = c09._write(c09.generated(cfg['spec']), 'surg_%s.xml' % (
             '-'.join(cfg['spec']['states'])))
         m = chi.PKPDModel(path)
@@ -172,6 +212,16 @@ def case_surgery(B, cfg):
         return
     rate = env_new[pace]
     target = comp + '.' + var
+    # the absorption depot is the component the vanilla model does not have
+    # ('dose', or a renamed one when that name is taken)
+    added = [c.name() for c in model.components()
+             if not vanilla.has_component(c.name())]
+    dep = added[0] if added else 'dose'
+    if not cfg['direct']:
+        B.fact('indirect route: exactly one component (the depot) added',
+               len(added) == 1, repr(added))
+        if len(added) != 1:
+            return
     for v in vanilla.states():
         q = v.qname()
         old = c09.expr_term(B, v.rhs(), env_old)
@@ -180,26 +230,27 @@ def case_surgery(B, cfg):
             if cfg['direct']:
                 B.eq('d/dt %s gains the dose rate' % q, new - old, rate)
             else:
-                ka = env_new['dose.absorption_rate']
-                depot = env_new['dose.drug_amount']
+                ka = env_new[dep + '.absorption_rate']
+                depot = env_new[dep + '.drug_amount']
                 B.eq('d/dt %s gains k_a * depot' % q, new - old, ka * depot)
         else:
             B.eq('d/dt %s unchanged' % q, new, old)
     if cfg['direct']:
-        B.fact('no depot compartment', not model.has_component('dose'))
+        B.fact('no depot compartment', not added, repr(added))
         B.fact('parameters unchanged by direct administration',
                m.n_parameters() == vanilla.count_states() + sum(
                    1 for v in vanilla.variables(const=True)
                    if v.is_literal()))
     else:
-        ka = env_new['dose.absorption_rate']
-        depot = env_new['dose.drug_amount']
-        new = c09.expr_term(B, model.get('dose.drug_amount').rhs(), env_new)
+        ka = env_new[dep + '.absorption_rate']
+        depot = env_new[dep + '.drug_amount']
+        new = c09.expr_term(B, model.get(dep + '.drug_amount').rhs(),
+                            env_new)
         B.eq('depot: d/dt = -k_a * depot + dose rate', new,
              -ka * depot + rate)
         B.fact('depot parameters published',
-               'dose.drug_amount' in m.parameters() and
-               'dose.absorption_rate' in m.parameters(),
+               dep + '.drug_amount' in m.parameters() and
+               dep + '.absorption_rate' in m.parameters(),
                repr(m.parameters()))
     B.fact('administration recorded', m.administration() == dict(
         compartment=comp, direct=cfg['direct']))
@@ -392,6 +443,11 @@ def jobs(tier):
         for direct in (True, False):
             out.append(('surgery', 'case_surgery', dict(
                 model=mod, comp=comp, var=var, direct=direct), FACADE))
+    for comp, var in (('dose', 'drug_amount'), ('central', 'drug_c_amount')):
+        for direct in (True, False):
+            out.append(('surgery', 'case_surgery', dict(
+                model='two_comp_dose', comp=comp, var=var, direct=direct),
+                FACADE))
     gen = []
     for ns in ((1, 2) if q else (1, 2, 3, 4)):
         for states in itertools.permutations(c09.STATE_IDS[:ns]):
@@ -417,7 +473,8 @@ def jobs(tier):
 
 BOUNDS = dict(
     quick='num in {None,0,1,2,3}, with/without period, direct and indirect '
-          'route; surgery on every dosable state of 2 library models and of '
+          'route; surgery on every dosable state of 2 library models, of a '
+          'model that already has a compartment called dose, and of '
           'generated models with 1..2 states (also after an earlier '
           'administration into the other state); regimen tables for multiplier '
           '0..3 with at most 4 doses before final_time (floor forked up to 5); '
